@@ -37,7 +37,7 @@ programs and all schedules.
 namespace Ecal.Mutex
 
 inductive Outcome where
-  | normal | error | ret | brk | cont
+  | normal | error | ret | brk | cont | panic
   deriving DecidableEq, Repr
 
 structure Frame where
